@@ -205,4 +205,10 @@ Definition run_plan_proof (n i : N) : list bytes :=
   | cs => plan_paths n cs
   end.
 
+(* the same, rendered as the harness prints them (used by the vm_compute cross-check) *)
+Definition show_paths (l : list bytes) : bytes :=
+  match l with [] => [x2d] | _ :: _ => join_with x2c l end.
+Definition run_plan_s (n lo hi : N) : bytes := show_paths (run_plan n lo hi).
+Definition run_plan_proof_s (n i : N) : bytes := show_paths (run_plan_proof n i).
+
 End Run.
